@@ -17,6 +17,7 @@ import (
 
 	"gorm.io/gorm"
 	"gorm.io/gorm/clause"
+	"gorm.io/gorm/logger"
 
 	"verifharness/cmd/c18/probe"
 	"verifharness/cmd/c18/srcfacts"
@@ -47,6 +48,11 @@ type Pet struct {
 	Name   string
 	Toys   []Toy
 }
+type Profile struct {
+	ID     int64 `gorm:"primaryKey"`
+	UserID int64
+	Bio    string
+}
 type Lang struct {
 	ID   int64 `gorm:"primaryKey"`
 	Name string
@@ -59,9 +65,10 @@ type User struct {
 	Company   *Company
 	Pets      []Pet
 	Langs     []Lang `gorm:"many2many:user_langs"`
+	Profile   *Profile
 }
 
-var tables = []string{"offices", "companies", "toys", "pets", "langs", "users", "user_langs"}
+var tables = []string{"profiles", "offices", "companies", "toys", "pets", "langs", "users", "user_langs"}
 
 // ---------------------------------------------------------------- inputs / observations
 type OpIn struct {
@@ -261,7 +268,7 @@ func name(p string) string { nextName++; return fmt.Sprintf("%s%d", p, nextName)
 func newUser() *User {
 	return &User{Name: name("u"), Age: 30, Company: &Company{Name: name("c"), Offices: []Office{{Name: name("o")}, {Name: name("o")}}},
 		Pets:  []Pet{{Name: name("p"), Toys: []Toy{{Name: name("t")}}}, {Name: name("p")}},
-		Langs: []Lang{{Name: name("l")}, {Name: name("l")}}}
+		Langs: []Lang{{Name: name("l")}, {Name: name("l")}}, Profile: &Profile{Bio: name("b")}}
 }
 
 var families = []fam{
@@ -582,6 +589,187 @@ var singleCall = map[string]bool{"joins_nested_preload_first": true, "joins_nest
 	"joins": true, "joins_preload": true, "count": true, "pluck": true, "first": true, "updates": true, "update_where": true,
 	"delete_where": true, "exec": true, "rows": true, "row": true, "scan": true, "raw_scan": true, "create_in_batches": true}
 
+// association mode over every relation kind x operation, from one record and from a slice of records,
+// scoped and Unscoped; plus finisher paths the first list does not reach
+func init() {
+	type relSpec struct {
+		name string
+		val  func() interface{}
+		old  func() interface{}
+	}
+	rels := []relSpec{
+		{"Company", func() interface{} { return &Company{Name: name("ac")} }, func() interface{} { return &Company{ID: 1} }},
+		{"Profile", func() interface{} { return &Profile{Bio: name("ab")} }, func() interface{} { return &Profile{ID: 1} }},
+		{"Pets", func() interface{} { return &Pet{Name: name("ap")} }, func() interface{} { return &Pet{ID: 1} }},
+		{"Langs", func() interface{} { return &Lang{Name: name("al")} }, func() interface{} { return &Lang{ID: 1} }},
+	}
+	for _, rl := range rels {
+		rl := rl
+		for _, unscoped := range []bool{false, true} {
+			unscoped := unscoped
+			for _, fromSlice := range []bool{false, true} {
+				fromSlice := fromSlice
+				assoc := func(h *gorm.DB) *gorm.Association {
+					var m interface{} = &User{ID: 1}
+					if fromSlice {
+						m = &[]User{{ID: 1}, {ID: 2}}
+					}
+					d := h.Model(m)
+					if unscoped {
+						d = d.Unscoped()
+					}
+					a := d.Association(rl.name)
+					if unscoped {
+						a = a.Unscoped()
+					}
+					return a
+				}
+				sfx := ""
+				if unscoped {
+					sfx += "_unscoped"
+				}
+				if fromSlice {
+					sfx += "_slice"
+				}
+				ops := map[string]func(a *gorm.Association) error{
+					"append": func(a *gorm.Association) error {
+						if fromSlice {
+							return a.Append(rl.val(), rl.val())
+						}
+						return a.Append(rl.val())
+					},
+					"replace": func(a *gorm.Association) error {
+						if fromSlice {
+							return a.Replace(rl.val(), rl.val())
+						}
+						return a.Replace(rl.val())
+					},
+					"delete": func(a *gorm.Association) error { return a.Delete(rl.old()) },
+					"clear":  func(a *gorm.Association) error { return a.Clear() },
+					"count":  func(a *gorm.Association) error { a.Count(); return a.Error },
+				}
+				for _, opn := range []string{"append", "replace", "delete", "clear", "count"} {
+					opn, f := opn, ops[opn]
+					if unscoped && (opn == "append" || opn == "count") {
+						continue
+					}
+					families = append(families, fam{name: "am_" + strings.ToLower(rl.name) + "_" + opn + sfx,
+						run:  func(h *gorm.DB) error { return f(assoc(h)) },
+						path: always(litAssocSave0, litAssocSave1)})
+				}
+			}
+		}
+	}
+	more := []fam{
+		{name: "first_or_init", run: func(h *gorm.DB) error {
+			var u User
+			return h.Where(User{Name: "nobody"}).Attrs(User{Age: 5}).FirstOrInit(&u).Error
+		}, path: always()},
+		{name: "first_or_create_found", run: func(h *gorm.DB) error {
+			var u User
+			return h.Where("id = ?", 1).Assign(User{Age: 77}).FirstOrCreate(&u).Error
+		}, path: always(litFOC)},
+		{name: "first_or_create_attrs", run: func(h *gorm.DB) error {
+			var u User
+			return h.Where(User{Name: name("foa")}).Attrs(User{Age: 9}).FirstOrCreate(&u).Error
+		}, path: always(litFOC)},
+		{name: "count_distinct_group", run: func(h *gorm.DB) error {
+			var n int64
+			if err := h.Model(&User{}).Distinct("age").Count(&n).Error; err != nil {
+				return err
+			}
+			if err := h.Model(&User{}).Group("age").Count(&n).Error; err != nil {
+				return err
+			}
+			return h.Model(&User{}).Select("name").Count(&n).Error
+		}, path: always()},
+		{name: "save_slice", run: func(h *gorm.DB) error {
+			us := []User{{ID: 1, Name: name("ss"), Age: 31}, {Name: name("ss"), Age: 32}}
+			return h.Save(&us).Error
+		}, path: always()},
+		{name: "update_columns", run: func(h *gorm.DB) error {
+			if err := h.Model(&User{ID: 1}).UpdateColumn("age", 50).Error; err != nil {
+				return err
+			}
+			return h.Model(&User{ID: 2}).UpdateColumns(User{Age: 51}).Error
+		}, path: always()},
+		{name: "delete_conds", run: func(h *gorm.DB) error { return h.Delete(&Pet{}, "name = ?", "nobody").Error }, path: always()},
+		{name: "delete_select_all", run: func(h *gorm.DB) error {
+			u := newUser()
+			if err := h.Create(u).Error; err != nil {
+				return err
+			}
+			return h.Select(clause.Associations).Delete(u).Error
+		}, path: func(t string) []string {
+			if t == "users" {
+				return nil
+			}
+			return []string{litDelAssoc0}
+		}},
+		{name: "preload_conds", run: func(h *gorm.DB) error {
+			var us []User
+			return h.Preload("Pets", "name <> ?", "zz").Preload("Langs", func(d *gorm.DB) *gorm.DB { return d.Order("langs.id") }).Preload("Profile").Find(&us).Error
+		}, path: only("users", litPreload)},
+		{name: "connection", run: func(h *gorm.DB) error {
+			return h.Connection(func(tx *gorm.DB) error {
+				if err := tx.Create(&Pet{Name: name("cn")}).Error; err != nil {
+					return err
+				}
+				var n int64
+				return tx.Model(&Pet{}).Count(&n).Error
+			})
+		}, path: always()},
+		{name: "savepoint_manual", run: func(h *gorm.DB) error {
+			tx := h.Begin()
+			if tx.Error != nil {
+				return tx.Error
+			}
+			tx.Create(&Pet{Name: name("sp")})
+			tx.SavePoint("sp1")
+			tx.Create(&Pet{Name: name("sp")})
+			tx.RollbackTo("sp1")
+			return tx.Commit().Error
+		}, path: always(litBegin)},
+		{name: "begin_rollback", run: func(h *gorm.DB) error {
+			tx := h.Begin()
+			if tx.Error != nil {
+				return tx.Error
+			}
+			tx.Exec("UPDATE users SET age = age + 1")
+			return tx.Rollback().Error
+		}, path: always(litBegin)},
+		{name: "row_exec_in_tx", run: func(h *gorm.DB) error {
+			return h.Transaction(func(tx *gorm.DB) error {
+				var n string
+				if err := tx.Model(&User{}).Select("name").Where("id = ?", 1).Row().Scan(&n); err != nil {
+					return err
+				}
+				rows, err := tx.Model(&User{}).Rows()
+				if err != nil {
+					return err
+				}
+				rows.Close()
+				return tx.Exec("UPDATE users SET age = age + ? WHERE id = ?", 1, 2).Error
+			})
+		}, path: always(litBegin), rows: true},
+		{name: "debug_session", run: func(h *gorm.DB) error {
+			var us []User
+			return h.Session(&gorm.Session{Logger: logger.Discard}).Where("age > ?", 0).Find(&us).Error
+		}, path: always()},
+		{name: "scopes", run: func(h *gorm.DB) error {
+			var us []User
+			return h.Scopes(func(d *gorm.DB) *gorm.DB { return d.Where("age > ?", 1) }).Preload("Pets").Find(&us).Error
+		}, path: only("users", litPreload)},
+	}
+	families = append(families, more...)
+	for _, f := range more {
+		switch f.name {
+		case "first_or_init", "first_or_create_found", "first_or_create_attrs", "save_slice", "delete_conds", "preload_conds", "debug_session", "scopes":
+			singleCall[f.name] = true
+		}
+	}
+}
+
 func famByName(n string) *fam {
 	for i := range families {
 		if families[i].name == n {
@@ -621,7 +809,7 @@ func runCase(in Input, facts srcfacts.Facts) Obs {
 	db, rec, sqlDB, err := gdb.Open(gdb.Opt{DSN: dsn, Config: &gorm.Config{PrepareStmt: in.Prep, DisableForeignKeyConstraintWhenMigrating: true}})
 	lib.Must(err)
 	defer sqlDB.Close()
-	lib.Must(db.AutoMigrate(&Office{}, &Company{}, &Toy{}, &Pet{}, &Lang{}, &User{}))
+	lib.Must(db.AutoMigrate(&Profile{}, &Office{}, &Company{}, &Toy{}, &Pet{}, &Lang{}, &User{}))
 	nextName = 0
 	for i := 0; i < 2; i++ {
 		lib.Must(db.Create(newUser()).Error)
@@ -929,7 +1117,7 @@ func main() {
 			}
 		}
 	}
-	budget := 640
+	budget := 1150
 	if a.Tier == "thorough" {
 		budget = 2500
 	}
@@ -965,7 +1153,7 @@ func main() {
 		}
 		add("main", in)
 	}
-	out.Extra["rule"] = "cases = programs of 1..4 operations on one database, each operation from one of " + fmt.Sprint(len(families)) + " families (Create with belongs-to/has-many/many2many values, CreateInBatches, Save existing/missing, Updates, Delete with Select(associations), Preload single/nested/clause.Associations, Joins, Joins + preload nested under the joined relation with First/Take/Last/Find(&one)/Find(&slice)/Find(&[]*T) destinations and inside Transaction, Association Append/Replace/Delete/Clear/Count/Find, FindInBatches with a statement from the batch handle, FindInBatches with Limit / Offset+Limit over several batches in and out of Transaction, a Transaction block deriving a side session with another context, Count, Pluck, First/Take/Last, FirstOrCreate, Scan, Rows, Row, Raw, Exec, Transaction plain/nested with save points/rolled back, Begin..Commit) started from db.WithContext(ctx) or db.Session(&Session{Context: ctx}) with a distinct tag, optionally through a further caller-derived session Session{NewDB / SkipHooks / PrepareStmt / SkipDefaultTransaction / DisableNestedTransaction / AllowGlobalUpdate / FullSaveAssociations / PropagateUnscoped / QueryFields / Initialized / CreateBatchSize combinations} that does not repeat the context, optionally after a side session bound to ANOTHER context (Session{NewDB,Context} / Session{Context} / WithContext, used and/or cancelled) was derived from the very handle the operation runs on, PrepareStmt on/off, 1/8 pre-cancelled; distinct = distinct (PrepareStmt, family/bind/cancelled sequence); non-trivial = at least 2 driver events observed"
+	out.Extra["rule"] = "cases = programs of 1..4 operations on one database, each operation from one of " + fmt.Sprint(len(families)) + " families (Create with belongs-to/has-many/many2many values, CreateInBatches, Save existing/missing, Updates, Delete with Select(associations), Preload single/nested/clause.Associations, Joins, Joins + preload nested under the joined relation with First/Take/Last/Find(&one)/Find(&slice)/Find(&[]*T) destinations and inside Transaction, Association mode over belongs-to / has-one / has-many / many2many x Append/Replace/Delete/Clear/Count/Find x one record / slice of records x scoped / Unscoped, FirstOrInit, FirstOrCreate (found+Assign, Attrs), Count with Distinct/Group/Select, Save of a slice, UpdateColumn(s), Delete with conditions, Delete with Select(clause.Associations), Preload with conditions and with a scope function, Connection, manual SavePoint/RollbackTo, Begin..Rollback, Row/Rows/Exec inside Transaction, Scopes, FindInBatches with a statement from the batch handle, FindInBatches with Limit / Offset+Limit over several batches in and out of Transaction, a Transaction block deriving a side session with another context, Count, Pluck, First/Take/Last, FirstOrCreate, Scan, Rows, Row, Raw, Exec, Transaction plain/nested with save points/rolled back, Begin..Commit) started from db.WithContext(ctx) or db.Session(&Session{Context: ctx}) with a distinct tag, optionally through a further caller-derived session Session{NewDB / SkipHooks / PrepareStmt / SkipDefaultTransaction / DisableNestedTransaction / AllowGlobalUpdate / FullSaveAssociations / PropagateUnscoped / QueryFields / Initialized / CreateBatchSize combinations} that does not repeat the context, optionally after a side session bound to ANOTHER context (Session{NewDB,Context} / Session{Context} / WithContext, used and/or cancelled) was derived from the very handle the operation runs on, PrepareStmt on/off, 1/8 pre-cancelled; distinct = distinct (PrepareStmt, family/bind/cancelled sequence); non-trivial = at least 2 driver events observed"
 	lib.Must(out.Flush())
 }
 
